@@ -37,10 +37,16 @@ impl FreeWord {
     #[verifier::external_body]
     pub proof fn lemma_reduced(&self) ensures reduced(self@) {}
     // free_words: FreeWord::empty, len, clone
+    //@@ import free_words :: impl FreeWord::empty
     #[verifier::external_body]
-    pub fn empty() -> (r: Self) ensures r@ == Seq::<isize>::empty() { unimplemented!() }
+    pub fn empty() -> (r: Self)
+        ensures r@ == Seq::<isize>::empty()
+    { unimplemented!() }
+    //@@ import free_words :: impl FreeWord::len
     #[verifier::external_body]
-    pub fn len(&self) -> (r: usize) ensures r == self@.len() { unimplemented!() }
+    pub fn len(&self) -> (r: usize)
+        ensures r == self@.len()
+    { unimplemented!() }
     #[verifier::external_body]
     pub fn clone(&self) -> (r: Self) ensures r@ == self@ { unimplemented!() }
 }
@@ -50,8 +56,11 @@ impl IndexSpecImpl<usize> for FreeWord {
 }
 impl Index<usize> for FreeWord {
     type Output = isize;
+    //@@ import free_words :: impl Index<usize> for FreeWord::index
     #[verifier::external_body]
-    fn index(&self, index: usize) -> (r: &isize) ensures *r == self@[index as int] { unimplemented!() }
+    fn index(&self, index: usize) -> (r: &isize)
+        ensures *r == self@[index as int]
+    { unimplemented!() }
 }
 // free_words: impl Mul<isize> for &FreeWord
 impl MulSpecImpl<isize> for &FreeWord {
@@ -61,18 +70,28 @@ impl MulSpecImpl<isize> for &FreeWord {
 }
 impl Mul<isize> for &FreeWord {
     type Output = FreeWord;
+    //@@ import free_words :: impl Mul<isize> for &FreeWord::mul
     #[verifier::external_body]
-    fn mul(self, rhs: isize) -> (r: FreeWord) ensures r@ == step(self@, rhs) { unimplemented!() }
+    fn mul(self, rhs: isize) -> (r: FreeWord)
+        ensures r@ == step(self@, rhs)
+    { unimplemented!() }
 }
 
 // --- unit partitions (C20): IntPartition::find is a function of the abstract partition (R6 wrapper over IntPartitionImpl::find)
 pub struct IntPartition { pub _impl: usize }
 impl IntPartition {
     pub uninterp spec fn rep(&self, x: int) -> int;
+    //@@ import partitions :: impl IntPartition::new
     #[verifier::external_body]
-    pub fn new() -> (r: Self) ensures forall|x: int| #[trigger] r.rep(x) == x { unimplemented!() }
+    pub fn new() -> (r: Self)
+        ensures forall|x: int| #[trigger] r.rep(x) == x
+    { unimplemented!() }
+    //@@ import partitions :: impl IntPartition::find
     #[verifier::external_body]
-    pub fn find(&self, x: usize) -> (r: usize) ensures r == self.rep(x as int) { unimplemented!() }
+    pub fn find(&self, x: usize) -> (r: usize)
+        requires x < usize::MAX
+        ensures r == self.rep(x as int)
+    { unimplemented!() }
 }
 
 // =====================================================================================================
@@ -152,6 +171,7 @@ impl CosetTable {
     //@ begin src/fpgroups/cosets.rs :: impl CosetTable :: fn canon
     //@ rw R16 /-> usize/-> (r: usize)/
     fn canon(&self, c: usize) -> (r: usize)
+        requires c < usize::MAX
         ensures r == self.part.rep(c as int)
     {
         self.part.find(c)
